@@ -192,3 +192,6 @@ fn settings_out_dirs() {
         }
     }
 }
+
+// Concrete playback (./check <id> --replay): Kani's generated unit test is written to this file, which is empty otherwise.
+include!("/verif/build/gen/playback_compiler_settings.rs");
